@@ -399,7 +399,27 @@ def h_export_observer(H, method, training, add_bn):
     _check_observers(H, method + '-export-twice', model, layers, state0)
 
 
-PROPERTY = {}
+PROPERTY = {
+    'C06': dict(
+        level='other',
+        explanation='SuperNet._get_single_cost / SuperNetCombiner.get_cost: cost == sum over choice-block invocations of the coefficient-weighted branch costs '
+                    '(+ fixed layers with full_cost), between the cheapest and the most expensive selection for every probability vector and for the output of the '
+                    'real sampler on ANY raw coefficients (ties included), == the selected branch under one-hot; dict specifications; 1..3 branches',
+        not_decided=['"equals the same metric on the exported network": export_graph is torch.fx surgery (C03)', 'per-invocation shapes come from tensor_meta'],
+        assumptions=['convert() / link_combiners_to_branches under an assumed contract (module tree, leaf lists, branch lists)'],
+    ),
+    'C18': dict(
+        level='other',
+        explanation='write frames of cost / get_cost / summary / cost_specification setter / export() of the three wrappers against a fixed list of observables '
+                    '(training flags, parameter and buffer tensors, trainability, cost specification, sampled coefficients, fused BatchNorms); switching the '
+                    'specification and back restores the values; export twice leaves the same state.  The conversion inside export() is an assumed contract '
+                    '(forces eval() on the model it traces and returns a new module).',
+        not_decided=['equality of repeated exports as networks, outputs before/after (needs the real fx conversion)',
+                     'MPS / SuperNet: the eval-mode forward that convert() runs on the shared layers overwrites the sampled coefficients until the next '
+                     'training forward (observed natively, see DESIGN.md section 5) - outside the assumed contract of convert()'],
+        assumptions=['writes that only add non-observable keys (output_shape added to vars(layer) of fixed layers by the full_cost path) are not failed'],
+    ),
+}
 
 _B = (True, False)
 _P = 'plinio/methods/'
